@@ -709,6 +709,7 @@ int main()
                 std::cout << "ok\n";
             }
             else if (op == "run") { std::cout << run_case() << "\n"; }
+            else if (op[0] == '#') { std::cout << "#\n"; }
             else { std::cout << "bad-op\n"; }
         }
         catch (const std::exception &e) { std::cout << "bad-op\n"; }
